@@ -10,8 +10,9 @@
    What is modelled: the data the collector looks at.  A PDU is its header fields plus the bytes of its
    information field ([body]); [plen] is what the Python [len(pdu)] returns (the harness checks on every PDU
    it meets that len(pdu) == header_size + len(encoded information field)).  Mutation is state passing; a
-   deque is a list (head = left end).  Encryption is off ([llc.sec is None], icv_size = 0) - the encrypted
-   paths of collect/dispatch are not modelled (DESIGN section 8).
+   deque is a list (head = left end).  Secure data transfer: [sec c] is the cipher object (icv_size, encrypt)
+   or None; the cipher itself is a parameter of the model (the theorems assume only that encrypt lengthens the
+   data by icv_size octets); decryption in dispatch() is not modelled.
 
    The two loops whose budget tests were wrong in the pinned tree are parameterised by a [variant]:
    [orig] is the code as found (`while miu_size > 0` in ServiceDiscovery.dequeue, `while True` around the
@@ -263,7 +264,24 @@ Definition obj_sendack (o : sapobj) : sapobj * option pdu :=
   | SapD d => (o, None)
   end.
 
-Record cfg := mkCfg { send_miu : Z (* cfg['send-miu'] *); send_agf : bool (* cfg['send-agf'] *) }.
+(* encode_header: struct.pack('!H', dsap << 10 | ptype << 6 | ssap) [+ ns << 4 | nr] *)
+Definition enc_hdr (p : pdu) : list Z :=
+  [da p * 4 + pt p / 4; (pt p mod 4) * 64 + sa p] ++ (if numbered (pt p) then [ns p * 16 + nr p] else []).
+
+(* llc.sec: None or a cipher object (secure data transfer).  Only what collect() uses of it: icv_size and
+   encrypt(header bytes, plaintext) -> ciphertext (the real suite appends a 4-octet ICV) *)
+Record cipher := mkCipher { icv_size : Z; encrypt : list Z -> list Z -> list Z }.
+Record cfg := mkCfg { send_miu : Z (* cfg['send-miu'] *); send_agf : bool (* cfg['send-agf'] *);
+                      sec : option cipher (* self.sec *) }.
+(* icv_size = self.sec.icv_size if self.sec else 0 *)
+Definition cfg_icv (c : cfg) : Z := match sec c with Some k => icv_size k | None => 0 end.
+(* if self.sec and send_pdu.name in ("UI", "I"): send_pdu = encrypt(send_pdu)
+   encrypt: a = encode_header(); c = self.sec.encrypt(a, data); pdu_type built from decode_header(a) and data=c *)
+Definition maybe_encrypt (c : cfg) (p : pdu) : pdu :=
+  match sec c with
+  | Some k => if is_ui_i p then mkPdu (pt p) (da p) (sa p) (ns p) (nr p) (encrypt k (enc_hdr p) (body p)) else p
+  | None => p
+  end.
 Record variant := mkVariant { sd_thr : Z; agf_guard : bool }.
 Definition orig := mkVariant 1 false.
 Definition fixed := mkVariant 4 true.
@@ -276,26 +294,26 @@ Definition agf_len (l : list pdu) : Z := 2 + agf_info l.
    key=lambda sap: sap.mode == RAW_ACCESS_POINT)` = the raw-mode SAPs in address order, then the others
    (sorted is stable, keys are taken before the loop).  One pass per key value; a pass leaves the SAPs it
    skips untouched and stops at the first PDU. *)
-Fixpoint first_pass (thr : Z) (raw_turn : bool) (miu : Z) (l : list sapobj) : res (list sapobj * option pdu) :=
+Fixpoint first_pass (c : cfg) (thr : Z) (raw_turn : bool) (miu : Z) (l : list sapobj) : res (list sapobj * option pdu) :=
   match l with
   | [] => Ok ([], None)
   | o :: r =>
       if Bool.eqb (skind_eqb (obj_mode o) Raw) raw_turn then
-        do x <- obj_dequeue thr miu 0 o;
+        do x <- obj_dequeue thr miu 0 o;          (* sap.dequeue(miu_size, icv_size=0) *)
         let '(o', y) := x in
         match y with
-        | Some p => Ok (o' :: r, Some p)
-        | None => do z <- first_pass thr raw_turn miu r; let '(r', y') := z in Ok (o' :: r', y')
+        | Some p => Ok (o' :: r, Some (maybe_encrypt c p))
+        | None => do z <- first_pass c thr raw_turn miu r; let '(r', y') := z in Ok (o' :: r', y')
         end
-      else do z <- first_pass thr raw_turn miu r; let '(r', y') := z in Ok (o :: r', y')
+      else do z <- first_pass c thr raw_turn miu r; let '(r', y') := z in Ok (o :: r', y')
   end.
 
-Definition phase1 (thr miu : Z) (l : list sapobj) : res (list sapobj * option pdu) :=
-  do x <- first_pass thr true miu l;
+Definition phase1 (c : cfg) (thr miu : Z) (l : list sapobj) : res (list sapobj * option pdu) :=
+  do x <- first_pass c thr true miu l;
   let '(l1, y) := x in
   match y with
   | Some p => Ok (l1, Some p)
-  | None => first_pass thr false miu l1
+  | None => first_pass c thr false miu l1
   end.
 
 (* voluntary acknowledgement when nothing was dequeued *)
@@ -313,37 +331,37 @@ Fixpoint ack_pass (l : list sapobj) : list sapobj * option pdu :=
   end.
 
 (* one `for sap in filter(None, self.sap)` pass of the aggregation loop; the last component is deq_none *)
-Fixpoint agg_for (thr M icv : Z) (l : list sapobj) (agf : list pdu) (miu : Z) (deq_none : bool)
+Fixpoint agg_for (c : cfg) (thr M icv : Z) (l : list sapobj) (agf : list pdu) (miu : Z) (deq_none : bool)
   : res (list sapobj * list pdu * Z * bool) :=
   match l with
   | [] => Ok ([], agf, miu, deq_none)
   | o :: r =>
-      do x <- obj_dequeue thr miu icv o;
+      do x <- obj_dequeue thr miu icv o;          (* sap.dequeue(miu_size, icv_size) *)
       let '(o', y) := x in
       match y with
       | Some p =>
-          let agf' := agf ++ [p] in
+          let agf' := agf ++ [maybe_encrypt c p] in
           let miu' := M - agf_len agf' - 3 in
           if miu' <? 0 then Ok (o' :: r, agf', miu', false)
-          else do z <- agg_for thr M icv r agf' miu' false;
+          else do z <- agg_for c thr M icv r agf' miu' false;
                let '(r', a, m, d) := z in Ok (o' :: r', a, m, d)
       | None =>
-          do z <- agg_for thr M icv r agf miu deq_none;
+          do z <- agg_for c thr M icv r agf miu deq_none;
           let '(r', a, m, d) := z in Ok (o' :: r', a, m, d)
       end
   end.
 
 (* `while True:` (pinned) / `while miu_size >= 0:` (repaired) ... `if miu_size < 0 or deq_none: break` *)
-Fixpoint agg_loop (fuel : nat) (v : variant) (M icv : Z) (l : list sapobj) (agf : list pdu) (miu : Z)
+Fixpoint agg_loop (fuel : nat) (c : cfg) (v : variant) (M icv : Z) (l : list sapobj) (agf : list pdu) (miu : Z)
   : res (list sapobj * list pdu * Z) :=
   match fuel with
   | O => Hang
   | S f =>
       if agf_guard v && (miu <? 0) then Ok (l, agf, miu)
       else
-        do x <- agg_for (sd_thr v) M icv l agf miu true;
+        do x <- agg_for c (sd_thr v) M icv l agf miu true;
         let '(l', agf', miu', dn) := x in
-        if (miu' <? 0) || dn then Ok (l', agf', miu') else agg_loop f v M icv l' agf' miu'
+        if (miu' <? 0) || dn then Ok (l', agf', miu') else agg_loop f c v M icv l' agf' miu'
   end.
 
 (* final voluntary acknowledgements *)
@@ -367,10 +385,10 @@ Inductive frame := FNone | FOne (p : pdu) | FAgf (l : list pdu).
 
 Definition collect_fuel (c : cfg) : nat := S (S (Z.to_nat (send_miu c))).
 
-(* LogicalLinkController.collect() with self.sec None *)
+(* LogicalLinkController.collect() *)
 Definition collect_v (v : variant) (c : cfg) (st : list sapobj) : res (list sapobj * frame) :=
   let M := send_miu c in
-  do x <- phase1 (sd_thr v) M st;
+  do x <- phase1 c (sd_thr v) M st;
   let '(l1, y) := x in
   let early := match y with Some p => plen p - hsize p >=? M | None => false end in
   match y, early with
@@ -384,7 +402,7 @@ Definition collect_v (v : variant) (c : cfg) (st : list sapobj) : res (list sapo
           else
             let agf0 := [p] in
             let miu0 := M - agf_len agf0 - 3 in
-            do z <- agg_loop (collect_fuel c) v M 0 l2 agf0 miu0;
+            do z <- agg_loop (collect_fuel c) c v M (cfg_icv c) l2 agf0 miu0;
             let '(l3, agf1, miu1) := z in
             let '(l4, agf2) := if miu1 >=? 0 then ack_for M l3 agf1 else (l3, agf1) in
             match agf2 with
@@ -404,9 +422,6 @@ Definition frame_pdus (f : frame) : list pdu :=
   match f with FNone => [] | FOne p => [p] | FAgf l => l end.
 
 (* ------------------------------------------------------------------ wire format (pdu.py) *)
-(* encode_header: struct.pack('!H', dsap << 10 | ptype << 6 | ssap) [+ ns << 4 | nr] *)
-Definition enc_hdr (p : pdu) : list Z :=
-  [da p * 4 + pt p / 4; (pt p mod 4) * 64 + sa p] ++ (if numbered (pt p) then [ns p * 16 + nr p] else []).
 Definition enc_pdu (p : pdu) : list Z := enc_hdr p ++ body p.
 (* AggregatedFrame.encode: header 00 80, then struct.pack('!H', len(encoded)) + encoded per PDU *)
 Definition enc_sub (p : pdu) : list Z := [plen p / 256; plen p mod 256] ++ enc_pdu p.
